@@ -180,6 +180,8 @@ func runC12(c *kit.Ctx) {
 	}
 
 	// ---- R2 ---------------------------------------------------------------
+	conditionalMutationsAreNotBatchable(c)
+
 	c.StartRule("R2", "only retryable classes are sent again", 3)
 	multiDecodesEveryResult(c)
 	regionExceptionUnchanged(c)
@@ -305,6 +307,7 @@ func runC12(c *kit.Ctx) {
 	c.StartRule("R4", "the region a call is grouped under owns its key (lookup validators, shared with C01.R3)", 4)
 	if grc, ml := c.Anchor("", "client", "getRegionFromCache"), c.Anchor("", "client", "metaLookup"); grc != nil && ml != nil {
 		lookupValidators(c, grc, ml)
+		establisherHandoff(c)
 	}
 
 	// ---- R3 ---------------------------------------------------------------
